@@ -23,6 +23,7 @@ import (
 	"time"
 
 	"github.com/open2b/scriggo"
+	"github.com/open2b/scriggo/native"
 
 	"verif/core"
 	"verif/mon"
@@ -37,10 +38,17 @@ func (prop) Level() string { return "exploration" }
 
 const stepBound = 8 // instructions a VM may still execute after the done flag is set
 
+// totalBound bounds the instructions all the VMs of a run may execute after
+// the done flag is set: every VM may use its stepBound, and a run starts at
+// most a few tens of VMs (goroutines, callbacks) before it is cancelled.
+const totalBound = 20000
+
 type caseData struct {
 	Kind     string            `json:"kind"` // prog | tmpl
 	Files    map[string]string `json:"files"`
 	Shape    string            `json:"shape"`
+	Prefix   string            `json:"prefix"`  // terminating fragment executed before the shape
+	Native   bool              `json:"native"`  // uses the native functions Each / WaitUntil
 	Trigger  string            `json:"trigger"` // step | blocked | before | deadline | never
 	AtStep   int64             `json:"at_step"`
 	Finishes bool              `json:"finishes"` // the code terminates by itself
@@ -52,6 +60,7 @@ type shape struct {
 	name     string
 	body     string // statements of main (program) or of a {%% %%} block (template)
 	blocks   bool   // ends up parked in a channel operation (never computing)
+	native   bool   // calls the native functions Each / WaitUntil ("@host." is "host." in programs, "" in templates)
 	finishes bool
 }
 
@@ -80,6 +89,11 @@ func shapes(r interface{ Intn(int) int }) []shape {
 		{name: "goroutines-looping-main-blocked", body: fmt.Sprintf("for i := 0; i < %d; i++ {\n\tgo func() {\n\t\tx := 0\n\t\tfor {\n\t\t\tx++\n\t\t}\n\t}()\n}\nd := make(chan bool)\n<-d", n), blocks: true},
 		{name: "goroutine-pingpong-forever", body: "a, b := make(chan int), make(chan int)\ngo func() {\n\tfor v := range a {\n\t\tb <- v + 1\n\t}\n}()\nv := 0\nfor {\n\ta <- v\n\tv = <-b\n}"},
 		{name: "goroutine-via-func-value", body: "var w func(c chan int)\nw = func(c chan int) {\n\tfor {\n\t\tc <- 1\n\t}\n}\nc := make(chan int)\ngo w(c)\nfor {\n\t<-c\n}"},
+		{name: "native-each-callback", body: "t := 0\n@host.Each(1<<40, func(i int) {\n\tt += i\n})", native: true},
+		{name: "native-waituntil-callback", body: "k := 0\n@host.WaitUntil(func() bool {\n\tk++\n\treturn k < 0\n})", native: true},
+		{name: "native-each-callback-blocked", body: "c := make(chan int, 1)\n@host.Each(1<<40, func(i int) {\n\tc <- i\n})", native: true, blocks: true},
+		{name: "native-callback-in-goroutine", body: "go @host.Each(1<<40, func(i int) {\n\t_ = i * 2\n})\nd := make(chan bool)\n<-d", native: true, blocks: true},
+		{name: "native-each-finishes", body: fmt.Sprintf("t := 0\n@host.Each(%d, func(i int) {\n\tt += i\n})\n_ = t", 3+n), native: true, finishes: true},
 		{name: "finishes-quickly", body: fmt.Sprintf("t := 0\nfor i := 0; i < %d; i++ {\n\tt += i\n}\n_ = t", 5+n*10), finishes: true},
 		{name: "finishes-with-goroutines", body: fmt.Sprintf("c := make(chan int)\nfor i := 0; i < %d; i++ {\n\tgo func(i int) {\n\t\tc <- i\n\t}(i)\n}\nt := 0\nfor i := 0; i < %d; i++ {\n\tt += <-c\n}\n_ = t", n, n), finishes: true},
 		{name: "finishes-with-panic", body: "var m map[string]int\nm[\"a\"] = 1", finishes: true},
@@ -90,10 +104,28 @@ func indent(s, pre string) string {
 	return pre + strings.ReplaceAll(s, "\n", "\n"+pre)
 }
 
+// prefixes are terminating fragments executed, in the same function frame,
+// before the shape: what stops a run must not depend on what ran before.
+var prefixes = []struct{ name, code string }{
+	{"none", ""},
+	{"poll", "{\n\tpc := make(chan int)\n\tselect {\n\tcase <-pc:\n\tdefault:\n\t}\n}\n"},
+	{"poll-loop", "{\n\tpc := make(chan int, 1)\n\tfor i := 0; i < 3; i++ {\n\t\tselect {\n\t\tcase pc <- i:\n\t\tcase v := <-pc:\n\t\t\t_ = v\n\t\tdefault:\n\t\t}\n\t}\n}\n"},
+	{"buffered-roundtrip", "{\n\tpc := make(chan string, 2)\n\tpc <- \"a\"\n\tpc <- \"b\"\n\t<-pc\n\tclose(pc)\n\tfor range pc {\n\t}\n}\n"},
+	{"select-ready", "{\n\tpa, pb := make(chan int, 1), make(chan int, 1)\n\tpa <- 1\n\tselect {\n\tcase <-pa:\n\tcase pb <- 2:\n\t}\n}\n"},
+	{"recovered-panic", "func() {\n\tdefer func() {\n\t\t_ = recover()\n\t}()\n\tvar pz []int\n\t_ = pz[3]\n}()\n"},
+	{"goroutine-joined", "{\n\tpd := make(chan int)\n\tgo func() {\n\t\tpd <- 7\n\t}()\n\t<-pd\n}\n"},
+}
+
 func makeFiles(kind string, sh shape, r interface{ Intn(int) int }) map[string]string {
 	if kind == "prog" {
-		return map[string]string{"main.go": "package main\n\nfunc main() {\n" + indent(sh.body, "\t") + "\n}\n"}
+		imp := ""
+		if sh.native {
+			imp = "import \"host\"\n\n"
+		}
+		body := strings.ReplaceAll(sh.body, "@host.", "host.")
+		return map[string]string{"main.go": "package main\n\n" + imp + "func main() {\n" + indent(body, "\t") + "\n}\n"}
 	}
+	sh.body = strings.ReplaceAll(sh.body, "@host.", "")
 	// templates: the code runs at top level, inside a macro, or inside a rendered file
 	block := "{%%\n" + sh.body + "\n%%}"
 	switch r.Intn(3) {
@@ -113,7 +145,7 @@ func (prop) Drive(d *core.Driver) error {
 	var cases []core.Case
 	for round := 0; round < rounds; round++ {
 		r := d.Rand(fmt.Sprintf("round-%d", round))
-		for _, sh := range shapes(r) {
+		for si, sh := range shapes(r) {
 			for _, kind := range []string{"prog", "tmpl"} {
 				var triggers []string
 				switch {
@@ -125,14 +157,17 @@ func (prop) Drive(d *core.Driver) error {
 					triggers = []string{"step", "step", "before", "deadline"}
 				}
 				for ti, tr := range triggers {
-					cd := caseData{Kind: kind, Files: makeFiles(kind, sh, r), Shape: sh.name, Trigger: tr, Finishes: sh.finishes}
+					psh := sh
+					pre := prefixes[(round+si+ti)%len(prefixes)]
+					psh.body = pre.code + sh.body
+					cd := caseData{Kind: kind, Files: makeFiles(kind, psh, r), Shape: sh.name, Prefix: pre.name, Native: sh.native, Trigger: tr, Finishes: sh.finishes}
 					switch tr {
 					case "step":
 						cd.AtStep = int64(1 + r.Intn(40)*(ti+1))
 					case "late-step":
 						cd.Trigger, cd.AtStep = "step", 1<<40
 					}
-					cases = append(cases, core.NewCase(fmt.Sprintf("r%d-%s-%s-%s-%d", round, kind, sh.name, tr, ti), cd))
+					cases = append(cases, core.NewCase(fmt.Sprintf("r%d-%s-%s-%s-%s-%d", round, kind, pre.name, sh.name, tr, ti), cd))
 				}
 			}
 		}
@@ -146,9 +181,24 @@ func (prop) Drive(d *core.Driver) error {
 	return nil
 }
 
+// hostEach and hostWaitUntil are native functions that keep calling a function
+// value of the interpreted code: they never block by themselves, and they
+// return only when the callback lets them (or panics).
+func hostEach(n int, f func(int)) {
+	for i := 0; i < n; i++ {
+		f(i)
+	}
+}
+
+func hostWaitUntil(f func() bool) {
+	for !f() {
+	}
+}
+
 type monitor struct {
 	steps     atomic.Int64
 	doneAt    atomic.Int64 // value of steps when the done flag was stored (0 = not yet)
+	total     atomic.Int64 // instructions executed by all VMs after the done flag was stored
 	mu        sync.Mutex
 	afterDone map[uintptr]int64
 	vms       map[uintptr]bool
@@ -162,6 +212,7 @@ func (m *monitor) step(vm uintptr, n uint64) {
 		m.cancel()
 	}
 	if m.doneAt.Load() != 0 {
+		m.total.Add(1)
 		m.mu.Lock()
 		m.afterDone[vm]++
 		m.mu.Unlock()
@@ -196,14 +247,14 @@ func (prop) Work(c core.Case) core.Result {
 			placement = "top-level"
 		}
 	}
-	res.Sigs = []string{fmt.Sprintf("%s|%s|%s|%s", cd.Kind, cd.Shape, cd.Trigger, placement)}
+	res.Sigs = []string{fmt.Sprintf("%s|%s|%s|%s|%s", cd.Kind, cd.Prefix, cd.Shape, cd.Trigger, placement)}
 	fail := func(format string, a ...any) core.Result {
 		res.Status = core.Violation
 		var src strings.Builder
 		for n, s := range cd.Files {
 			fmt.Fprintf(&src, "--- %s ---\n%s\n", n, s)
 		}
-		res.Detail = fmt.Sprintf("shape %s, trigger %s (step %d): ", cd.Shape, cd.Trigger, cd.AtStep) + fmt.Sprintf(format, a...) + "\n--- source ---\n" + src.String()
+		res.Detail = fmt.Sprintf("shape %s after prefix %s, trigger %s (step %d): ", cd.Shape, cd.Prefix, cd.Trigger, cd.AtStep) + fmt.Sprintf(format, a...) + "\n--- source ---\n" + src.String()
 		return res
 	}
 	files := scriggo.Files{}
@@ -211,6 +262,14 @@ func (prop) Work(c core.Case) core.Result {
 		files[n] = []byte(s)
 	}
 	opts := &scriggo.BuildOptions{AllowGoStmt: true}
+	if cd.Native {
+		decls := native.Declarations{"Each": hostEach, "WaitUntil": hostWaitUntil}
+		if cd.Kind == "prog" {
+			opts.Packages = native.Packages{"host": native.Package{Name: "host", Declarations: decls}}
+		} else {
+			opts.Globals = decls
+		}
+	}
 	var run func(ro *scriggo.RunOptions) error
 	if cd.Kind == "prog" {
 		p, err := scriggo.Build(files, opts)
@@ -317,7 +376,7 @@ loop:
 			continue
 		}
 		if m.doneAt.Load() != 0 {
-			if max, _ := m.maxAfterDone(); max > 5000 {
+			if max, _ := m.maxAfterDone(); max > 5000 || m.total.Load() > totalBound {
 				break loop // (a) unbounded work after the done flag
 			}
 			if still >= 20 {
@@ -357,6 +416,9 @@ loop:
 		}
 		if max > 5000 {
 			return fail("a VM executed more than %d instructions after the done flag was set and Run has not returned", max)
+		}
+		if t := m.total.Load(); t > totalBound {
+			return fail("the VMs of the run executed %d instructions after the done flag was set (at most %d each) and Run has not returned: the code goes on in ever new VMs", t, max)
 		}
 		return fail("Run has not returned although the done flag is set and no VM instruction has been executed for %d samples: the run is parked forever\n%s", still, scriggoStacks())
 	}
